@@ -163,6 +163,13 @@ def check(ctx, run):
             if base in ("params",) or base.startswith("self._") or base.startswith("cls._"):
                 skipped += 1
                 continue
+            if isinstance(tgt.value, ast.Name) and tgt.value.id in getattr(mod, "globals", {}):
+                # a store into a module-level container from inside a function: process-wide state that every later call reads
+                fnq_ = next((q_ for q_, f_ in prog.functions.items() if f_.module == mod.name and any(n_ is node for n_ in ast.walk(f_.node))), mod.name)
+                run.oblige("C16.R4", f"{fnq_}:{text[:80]}", False, f"writes the module-level container {tgt.value.id}")
+                run.fail(Finding("C16.R4", fnq_, text[:120], f"a computation stores into the module-level container {tgt.value.id}: results depend on what earlier calls (other dtypes, other devices, other arguments) left there",
+                                 file=str(mod.path), line=node.lineno))
+                continue
         if how == "augassign" and isinstance(node.value, (ast.Constant, ast.BinOp, ast.Call)) and isinstance(node.target, ast.Name) and node.target.id in ("n_iter", "out", "params_str", "main_str", "extra_repr"):
             skipped += 1
             continue
@@ -225,6 +232,11 @@ def check(ctx, run):
                     # an attribute stored on an instrument, derivative, feature or the hedger itself, that existed before the call, outlives it (memoised
                     # market data, a cached binding, a kept optimiser): the next result depends on the call history
                     bad = f"stores attribute {e['attr']!r} on {e['obj']!r} (state that outlives the call)"
+                if bad is None and e["kind"] in ("inplace", "dict_store"):
+                    from ..purity import stores as _stores
+                    st_ = _stores([{"events": [e], "raises": None}])
+                    if st_:
+                        bad = st_[0] + " (state that outlives the call)"
                 if bad:
                     run.oblige("C16.R3", label, False, bad)
                     run.fail(Finding("C16.R3", label, bad, "a computing entry point reaches a writer of instrument state"))
